@@ -422,10 +422,6 @@ def segments(rng, wire: bytes):
 # =================================================================================================
 # implementation rig
 
-class FlowTransport:
-    """Built lazily (needs harness.common.transport)."""
-
-
 def _transport_cls():
     from harness.common.transport import MemTransport
 
